@@ -237,3 +237,112 @@ Definition d_of_list (l : list (string * tensor)) : tdict := l.
 Definition py_flat_map {A B} (f : A -> list B) (l : list A) : list B := flat_map f l.
 (* (1,) * n for a tuple of ints *)
 Definition py_tuple_repeat (t : list Z) (n : Z) : list Z := concat (repeat t (Z.to_nat n)).
+
+(* ====================== additions for encoding._encode_batch (T06B) ====================== *)
+(* dtypes.  Integer tensors do not carry their dtype: where it matters (torch.tensor(l, dtype=d)) the translator passes
+   the dtype expression the tensor was created with. *)
+Inductive dtype := DFloat | DUint8 | DInt32 | DBool.
+
+(* torch.zeros((a, b), dtype=d) *)
+Definition t_zeros2 (d : dtype) (a b : Z) : res tensor :=
+  if (a <? 0) || (b <? 0) then Crash Unmodelled else
+  let rows {A} (z : A) := repeat (repeat z (Z.to_nat b)) (Z.to_nat a) in
+  match d with
+  | DFloat => Ok (F2 (rows fl_zero))
+  | DUint8 | DInt32 => Ok (I2 (rows 0))
+  | DBool => Ok (B2 (rows false))
+  end.
+
+(* torch.empty((n,), dtype=torch.int): UNINITIALISED memory.  `uninit j` is whatever entry j holds; the generated
+   functions take it as a parameter and the theorems hold for every `uninit`. *)
+Definition t_empty_int (uninit : nat -> Z) (n : Z) : res tensor :=
+  if n <? 0 then Crash Unmodelled else Ok (I1 (map uninit (seq 0 (Z.to_nat n)))).
+
+(* torch.zeros_like(t, dtype=d) *)
+Definition t_zeros_like_as (t : tensor) (d : dtype) : res tensor :=
+  let z2 {A B} (z : B) (m : list (list A)) := map (map (fun _ => z)) m in
+  let z1 {A B} (z : B) (v : list A) := map (fun _ => z) v in
+  let mk2 {A} (m : list (list A)) :=
+    match d with DFloat => F2 (z2 fl_zero m) | DUint8 | DInt32 => I2 (z2 0 m) | DBool => B2 (z2 false m) end in
+  let mk1 {A} (v : list A) :=
+    match d with DFloat => F1 (z1 fl_zero v) | DUint8 | DInt32 => I1 (z1 0 v) | DBool => B1 (z1 false v) end in
+  match t with
+  | F0 _ => Crash Unmodelled
+  | F1 v => Ok (mk1 v) | I1 v => Ok (mk1 v) | B1 v => Ok (mk1 v)
+  | F2 m => Ok (mk2 m) | I2 m => Ok (mk2 m) | B2 m => Ok (mk2 m)
+  end.
+
+(* t.size(k).  The width of a tensor without rows is invisible in the list of rows: no position. *)
+Definition width_of {A} (m : list (list A)) : res Z :=
+  match m with [] => Crash Unmodelled | r :: _ => Ok (zlen r) end.
+Definition t_size (t : tensor) (k : Z) : res Z :=
+  if k =? 0 then t_shape0 t
+  else if k =? 1 then
+    match t with
+    | F2 m => width_of m | I2 m => width_of m | B2 m => width_of m
+    | _ => Crash IndexError               (* Dimension out of range *)
+    end
+  else Crash Unmodelled.
+
+(* torch.tensor(l, dtype=d) for a list of Python ints; a value outside the dtype's range: no position
+   (RuntimeError or wrap-around, depending on the torch version) *)
+Definition t_tensor_ints (d : dtype) (l : list Z) : res tensor :=
+  match d with
+  | DFloat => Ok (F1 (map (fun x => Fin (inject_Z x)) l))
+  | DUint8 => if forallb (fun x => (0 <=? x) && (x <? 256)) l then Ok (I1 l) else Crash Unmodelled
+  | DInt32 => if forallb (fun x => (-2147483648 <=? x) && (x <? 2147483648)) l then Ok (I1 l) else Crash Unmodelled
+  | DBool => Crash Unmodelled
+  end.
+
+(* t[i] = n on a 1-d integer tensor, n a Python int (the range of the dtype is not checked: no position outside int32) *)
+Definition t_set_int (t : tensor) (i n : Z) : res tensor :=
+  match t with
+  | I1 v => if (-2147483648 <=? n) && (n <? 2147483648) then v' <- py_setitem v i n ;; ret (I1 v') else Crash Unmodelled
+  | _ => Crash Unmodelled
+  end.
+(* for x in t / enumerate(t) on a 1-d integer tensor: the entries (0-d tensors used as ints) *)
+Definition t_iter_int (t : tensor) : res (list Z) :=
+  match t with I1 v => Ok v | _ => Crash Unmodelled end.
+
+(* row[:k] = new : the slice is [0, e) with Python's clamping; the shapes must agree *)
+Definition set_prefix_row {A} (row new : list A) (k : Z) : option (list A) :=
+  let e := py_bound (zlen row) (Some k) (zlen row) in
+  if zlen new =? e then Some (new ++ skipn (Z.to_nat e) row) else None.
+(* t[i, :k] = v *)
+Definition t_set_row_prefix (t : tensor) (i k : Z) (v : tensor) : res tensor :=
+  match t, v with
+  | F2 m, F1 r => old <- py_getitem m i ;;
+      match set_prefix_row old r k with Some r' => m' <- py_setitem m i r' ;; ret (F2 m') | None => Crash Unmodelled end
+  | I2 m, I1 r => old <- py_getitem m i ;;
+      match set_prefix_row old r k with Some r' => m' <- py_setitem m i r' ;; ret (I2 m') | None => Crash Unmodelled end
+  | B2 m, B1 r => old <- py_getitem m i ;;
+      match set_prefix_row old r k with Some r' => m' <- py_setitem m i r' ;; ret (B2 m') | None => Crash Unmodelled end
+  | _, _ => Crash Unmodelled
+  end.
+(* t[:, :k] = u *)
+Fixpoint set_prefix_rows {A} (m u : list (list A)) (k : Z) : option (list (list A)) :=
+  match m, u with
+  | [], [] => Some []
+  | r :: m', s :: u' =>
+    match set_prefix_row r s k, set_prefix_rows m' u' k with
+    | Some r', Some rest => Some (r' :: rest)
+    | _, _ => None
+    end
+  | _, _ => None
+  end.
+Definition t_set_cols_prefix (t : tensor) (k : Z) (u : tensor) : res tensor :=
+  match t, u with
+  | F2 m, F2 s => match set_prefix_rows m s k with Some m' => Ok (F2 m') | None => Crash Unmodelled end
+  | I2 m, I2 s => match set_prefix_rows m s k with Some m' => Ok (I2 m') | None => Crash Unmodelled end
+  | B2 m, B2 s => match set_prefix_rows m s k with Some m' => Ok (B2 m') | None => Crash Unmodelled end
+  | _, _ => Crash Unmodelled
+  end.
+(* t[i, :k] = c for a Python int c (bool tensor: c != 0) *)
+Definition fill_prefix_row {A} (row : list A) (c : A) (k : Z) : list A :=
+  let e := Z.to_nat (py_bound (zlen row) (Some k) (zlen row)) in repeat c e ++ skipn e row.
+Definition t_fill_row_prefix (t : tensor) (i k c : Z) : res tensor :=
+  match t with
+  | B2 m => old <- py_getitem m i ;; m' <- py_setitem m i (fill_prefix_row old (negb (c =? 0)) k) ;; ret (B2 m')
+  | F2 m => old <- py_getitem m i ;; m' <- py_setitem m i (fill_prefix_row old (Fin (inject_Z c)) k) ;; ret (F2 m')
+  | _ => Crash Unmodelled
+  end.
